@@ -555,6 +555,8 @@ func ruleThreadCtx(c *Ctx) {
 	if kf := c.need(R, "lua", "(*LState).kill"); kf != nil {
 		g := p.G(kf)
 		guarded, found, passesOn := true, false, false
+		deadGuard := true
+		deadF := p.Field("lua", "LState", "Dead")
 		allInstrs(kf, func(in ssa.Instruction) {
 			cl, ok := in.(*ssa.Call)
 			if ok && cl.Call.StaticCallee() == nil && !cl.Call.IsInvoke() {
@@ -579,6 +581,17 @@ func ruleThreadCtx(c *Ctx) {
 					if !zero {
 						guarded = false
 					}
+					// …and that thread is dead itself (the loop moves on to the owners: a live owner whose last
+					// derived thread has just ended keeps its context)
+					dead := false
+					for _, cd := range g.expandAnd(g.CondsAtInstr(cl)) {
+						if o, isLoad := loadsField(cd.V, deadF); isLoad && o == owner && cd.Sense {
+							dead = true
+						}
+					}
+					if !dead {
+						deadGuard = false
+					}
 				}
 			}
 			if st, ok := isFieldStore(in, childF); ok {
@@ -589,6 +602,7 @@ func ruleThreadCtx(c *Ctx) {
 				}
 			}
 		})
+		c.check(found && deadGuard, R, "kill:releases-only-the-context-of-a-dead-thread", p.pos(kf.Pos()), "the cancel function is called under Dead of the same thread", "kill cancels the derived context of a thread it has not found dead: walking up the owners after a coroutine ended, it cancels the context of the still running coroutine that created it as soon as that one has no other derived thread — the creator fails with 'context canceled' on its next instruction although the attached context is live")
 		c.check(found && guarded, R, "kill:releases-only-a-context-without-live-descendants", p.pos(kf.Pos()), "the cancel function is called under ctxChildren == 0", "kill cancels a thread's derived context although threads derived from it may still be alive: a coroutine created inside another coroutine fails with 'context canceled' as soon as its creator has finished")
 		c.check(passesOn, R, "kill:release-is-handed-to-the-owner", p.pos(kf.Pos()), "the owner's ctxChildren is decremented when a derived context is released", "kill never takes a released thread off its owner's count: the owner's derived context is never released (one registered child context per finished coroutine stays in the attached context for ever)")
 	}
